@@ -13,6 +13,11 @@ Correspondence (Lean model `NipyVerif.C17`):
     statistic along any axis of an N-d array of any layout (`axis`, `axis2`); Gaussian likelihood ratio
     (`lrgmfx`); two-level linear model loops on general designs (`glm2`, `vbglm`, `memx`, `tsmfx`,
     `tsdesign`); permutation_test counting (`pvalc`, `calib`, `csize`, `poolp`, `region`, `hthresh`).
+  * wave 5: function bodies regenerated statement by statement from the Python / C text
+    (harness/props/c17_source.py -> Gen/C17Source.lean; theorems `*_from_source` in Props/C17Source.lean) and run
+    by the driver next to the hand-written model on the same inputs (Model/C17Src.lean): `srcpvalc`, `srchthresh`,
+    `srcgmfx`, `srcmem`, `srcvaratio`, `srcos sign|mean`, `srcts wilcoxon`, `srczclip` (zscore = isf of the clip),
+    `srcfisher` (pseudo p-values of compute_cluster_stats / compute_region_stat; `-sum(log p)` finished here).
 Oracle: the property clauses evaluated on the real code with independent exact
 definitions (fractions): definitions, antisymmetry, base shift law, axis independence, validity /
 distinctness / completeness of the seeded relabellings, validity of the null sample, p-values in (0, 1].
@@ -33,7 +38,7 @@ if hasattr(sys, "set_int_max_str_digits"):
     sys.set_int_max_str_digits(0)   # exact EM iterates have long numerators
 
 from harness.core import REPO, PropertyCheck, TieBroken
-from harness.props import c17_tables
+from harness.props import c17_tables, c17_source
 from harness.util import Snapshot, close, cmp_rats, fr, frs, parse_rats, plist, pmat
 
 # flag values: read from the C headers / .pyx dictionaries of the tree under test (c17_tables); the
@@ -563,10 +568,14 @@ def _var(rng, n):
     return [rng.choice([0.0, 0.25, 0.5, 1.0, 2.0, 4.0, 0.125]) for _ in range(n)]
 
 
+# line kinds that have a twin built from the regenerated source terms (`src` + kind, Model/C17Src.lean)
+SRC_MIRROR = {"pvalc", "hthresh", "gmfx", "mem", "varatio"}
+
+
 class C17(PropertyCheck):
     id = "C17"
     title = "Group statistics equal their definitions; permutations enumerate exactly"
-    lean_modules = ["NipyVerif.Props.C17", "NipyVerif.Props.C17B", "NipyVerif.Props.C17C", "NipyVerif.Props.C17D", "NipyVerif.Props.C17E"]
+    lean_modules = ["NipyVerif.Props.C17", "NipyVerif.Props.C17B", "NipyVerif.Props.C17C", "NipyVerif.Props.C17D", "NipyVerif.Props.C17E", "NipyVerif.Props.C17Source"]
     driver = "Drivers/C17.lean"
     rule = ("cases are (kind, sizes, dyadic data, baseline, magic numbers) from a seeded PRNG plus the "
             "exhaustive enumerations the property names (all sign patterns n<=10, all two-group splits "
@@ -596,8 +605,18 @@ class C17(PropertyCheck):
         "theorems about EM steps carry non-degeneracy hypotheses (s_i + v != 0, v != 0; satisfied by positive variances, "
         "examples given); convergence / monotone likelihood of the iterations is not proved (oracle: signs, symmetries)",
         "np.random draws inside permutation_test are inputs: the null sample and the relabellings calibrate draws are "
-        "handed to the model; cluster labels (connected components, C11/C12) and Fisher values (-sum log p) are inputs "
-        "of the counting model as the implementation's own functions computed them",
+        "handed to the model; cluster labels (connected components, C11/C12) are inputs of the counting model as the "
+        "implementation's own functions computed them; inside calibrate the Fisher values are inputs too, but "
+        "compute_cluster_stats / compute_region_stat themselves are now modelled (pseudo p-values and the -sum(log p) "
+        "statement regenerated from the source, `log` a leaf finished numerically at 1e-9; theorems fisher_nonneg_from_source, "
+        "fisher_mono_from_source under `log <= 0 on (0, 1]`)",
+        "source tie (Gen/C17Source.lean): numeric library calls are named leaves of the regenerated terms - `sqrt` (hypothesis "
+        "sqrt a * sqrt a = a for a >= 0 where a theorem needs it), `log`, `norm.isf`; NumPy broadcasting is read for ONE column "
+        "(vectors over subjects, `_stretch` / `np.multiply.outer(ones, .)` = broadcast of a per-column value); the C statements "
+        "are read through the C-expression reader of C20 with `*buf` pointers renamed to the current sample and doubles as exact "
+        "rationals; loop headers / pointer bookkeeping are matched as text (a changed shape is TieBroken, not a silent pass); "
+        "`Sreduction` of estimate_varatio is the decimal 0.99 in the regenerated term and the double 0.99 in the hand-written "
+        "line (compared at 1e-8); height_threshold_from_source holds for levels pval <= 1",
         "np.argsort inside the corrected region p-values is modelled as a stable sort (theorem region_corr_p_in_unit only "
         "uses rank >= #smaller, true of every argsort); on ties the corrected values are not compared",
         "the compiled Cython glue (.pyx) cannot be rebuilt here: Python-level stat()/permutations() "
@@ -609,10 +628,18 @@ class C17(PropertyCheck):
                   "statistic: textbook form, antisymmetry, base shift law, axis independence, flag tables (C17C); every "
                   "p-value kind of permutation_test in (0, 1], identity relabelling reproduces the observed statistic, "
                   "height threshold (C17D); Gaussian EM step closed form / fixed point <=> score equations / oddness, "
-                  "E-step forms agree, two-sample projectors (C17E). Hypotheses: non-degenerate variances in EM-step "
+                  "E-step forms agree, two-sample projectors (C17E); source tie (C17Source, 51 theorems): the bodies of "
+                  "pvalue, height_threshold (whole body), every p-value expression and counting comparison of calibrate, the "
+                  "pseudo p-values / Fisher statements of compute_cluster_stats / compute_region_stat (non-negative, monotone), "
+                  "the zscore clip, MixedEffectsModel._one_step / fit (= memStep / memFit), mfx_stat (contrast mask, F >= 0, t "
+                  "odd), t_stat, estimate_varatio (whole function: no iterate outside the model any more) and estimate_mean, the "
+                  "FFF_* macros, _fff_onesample_mean / student / sign_stat / laplace / tukey, the loop of _fff_onesample_gmfx_EM "
+                  "(= gmfxEM, both constraint modes), _fff_twosample_student / wilcoxon / student_mfx tail are regenerated from "
+                  "the text and proved to be what the model implements. Hypotheses: non-degenerate variances in EM-step "
                   "theorems; sorted null sample for the height threshold. Oracle only: sqrt/log tails, elr finite value, "
-                  "empirical-likelihood EM statistics, likelihood monotonicity, estimate_varatio iterates beyond the "
-                  "modelled step, diameter-constrained clusters (experimental, may raise on plateaus). Gated until the "
+                  "empirical-likelihood EM statistics, likelihood monotonicity, median / Wilcoxon signed-rank / elr / grubb "
+                  "bodies are hand-written models (compared, not regenerated), sorted_values / max_dist / peak_XYZ against "
+                  "harness definitions, diameter-constrained clusters (experimental, may raise on plateaus). Gated until the "
                   "proposed fixes are applied: null-sample validity for two-sample axis=1 / mfx niter != 5, median_mfx "
                   "baseline, negative axis in the .pyx glue (known-finding key pyx-negative-axis)")
     finding_keys = {KEY_NEG_AXIS: "labs.group.onesample/twosample stat(..., axis=-k): a negative axis is neither refused "
@@ -631,7 +658,12 @@ class C17(PropertyCheck):
             raise TieBroken("C17 tables: a statistic id of the property is no longer in the stats dictionaries")
         from harness import cshim
         cshim.build("fff")       # once, in the parent: workers then only dlopen the cached library
-        return [("NipyVerif/Gen/C17Tables.lean", c17_tables.lean_text(t))]
+        try:
+            src = c17_source.lean_text(REPO)
+        except c17_source.SourceError as e:
+            raise TieBroken(f"C17 source expressions: {e}")
+        return [("NipyVerif/Gen/C17Tables.lean", c17_tables.lean_text(t)),
+                ("NipyVerif/Gen/C17Source.lean", src)]
 
     # ------------------------------------------------------------------
     def generate(self, rng, tier):
@@ -799,13 +831,106 @@ class C17(PropertyCheck):
                           "two": rng.random() < 0.35, "n2": rng.choice([2, 3]),
                           "clusters": (CLUSTERS_IN_QUICK or not q) and rng.random() < 0.5,
                           "graph": rng.random() < 0.2, "diam": rng.choice([None, None, 1, 2])})
+        # ---- wave 5: Fisher statistics of clusters / regions called directly (the pseudo p-values and the
+        # `-sum(log p)` statement are regenerated from the source): the same numbers as float64 / float32 / integer
+        # statistic maps, null samples with ties, statistic values beyond both ends of the null sample, voxels
+        # without label, empty clusters / regions, one voxel, every `cluster_stats` selection
+        for _ in range(120 if q else 2500):
+            cases.append({"kind": "fisher", "p": rng.choice([1, 2, 3, 5, 8, 13]), "ndraws": rng.choice([1, 2, 3, 8, 20, 64]),
+                          "seed": rng.randrange(10 ** 6), "dtype": rng.choice(["f8", "f8", "f4", "i8", "i1", "i4"]),
+                          "labels": rng.choice(["none", "one", "some", "some", "all-distinct"]),
+                          "stats": rng.choice([["size", "Fisher"], ["size", "Fisher"], ["Fisher"], ["size"]]),
+                          "layout": rng.choice(["C", "strided", "readonly"])})
         return cases
+
+    # ------------------------------------------------------------------
+    def _fisher(self, c):
+        from nipy.labs.group import permutation_test as pt
+        r = np.random.RandomState(c["seed"])
+        p, nd = c["p"], c["ndraws"]
+        draws = np.sort(r.randint(-8, 9, nd) / 4.0)
+        if c["dtype"].startswith("i"):
+            T = r.randint(-3, 4, p).astype(c["dtype"])
+        else:
+            T = (r.randint(-10, 11, p) / 4.0).astype(c["dtype"])
+        if c["layout"] == "strided":
+            buf = np.zeros(2 * p, T.dtype); buf[::2] = T; T = buf[::2]
+        elif c["layout"] == "readonly":
+            T.setflags(write=False); draws.setflags(write=False)
+        k = {"none": 0, "one": 1, "some": max(1, p // 2), "all-distinct": p}[c["labels"]]
+        if k == 0:
+            labels = -np.ones(p, int)
+        elif c["labels"] == "all-distinct":
+            labels = r.permutation(p)
+        else:
+            labels = r.randint(-1, k, p)
+            labels[r.randint(p)] = k - 1            # max(labels) + 1 == k
+        label_values = sorted(set(int(v) for v in labels if v >= 0)) + [k + 1]      # the last region is empty
+        snap = Snapshot(T=T, labels=labels, draws=draws)
+        size, fisher = pt.compute_cluster_stats(T, labels, draws, list(c["stats"]))
+        rf = pt.compute_region_stat(T, labels, np.array(label_values), draws)
+        mut = snap.changed()
+        lines, impl, fail = [], [], None
+        Tl = [float(v) for v in T]
+        lines.append(f"srcfisher {plist(Tl)} {plist(draws.tolist())}")
+        impl.append(("fisher", labels.tolist(), label_values, None if fisher is None else np.asarray(fisher, float).tolist(),
+                     np.asarray(rf, float).tolist()))
+        if size is not None:
+            lines.append(f"csize {len(labels)} {' '.join(str(int(v)) for v in labels)}" if len(labels) else "csize 0")
+            impl.append(("rats", [float(v) for v in np.asarray(size)]))
+        if ("size" in c["stats"]) != (size is not None) or ("Fisher" in c["stats"]) != (fisher is not None):
+            fail = f"compute_cluster_stats(cluster_stats={c['stats']}) returned size={size!r} Fisher={fisher!r}"
+        allf = list(np.asarray(rf, float)) + ([] if fisher is None else list(np.asarray(fisher, float)))
+        if fail is None and not all(math.isfinite(v) and v >= 0 for v in allf):
+            fail = (f"a Fisher statistic is negative or not finite: clusters {fisher!r}, regions {rf!r} "
+                    f"(T={Tl}, labels={labels.tolist()}, draws={draws.tolist()})")
+        if fail is None and fisher is not None and k > 0:
+            # a region made of the voxels of cluster i has the Fisher value of cluster i
+            for j, lv in enumerate(label_values[:-1]):
+                if not close(float(rf[j]), float(np.asarray(fisher, float)[lv]), 1e-12, 1e-12):
+                    fail = f"region {lv}: Fisher {rf[j]!r} but the cluster of the same voxels has {fisher[lv]!r}"
+                    break
+        # small helpers of the same module, against their definitions (oracle only)
+        XYZ = r.randint(0, 5, (3, p))
+        snap2 = Snapshot(XYZ=XYZ, T=T, labels=labels)
+        if fail is None:
+            sv = [float(v) for v in pt.sorted_values(np.asarray(T))]
+            if sv != sorted(set(Tl)):
+                fail = f"sorted_values({Tl}) = {sv}: not the distinct values in ascending order"
+        if fail is None:
+            I = np.where(labels == (label_values[0] if k > 0 else -1))[0]
+            J = np.where(labels != (label_values[0] if k > 0 else -1))[0]
+            d = float(pt.max_dist(XYZ, I, J))
+            want = max([int(np.sum((XYZ[:, i] - XYZ[:, j]) ** 2)) for i in I for j in J], default=0)
+            if not close(d * d, float(want), 1e-9, 1e-9):
+                fail = f"max_dist(XYZ={XYZ.tolist()}, I={I.tolist()}, J={J.tolist()}) = {d}, squared maximum distance is {want}"
+        if fail is None and k > 0:
+            C_ = np.asarray(pt.peak_XYZ(XYZ, T, labels, np.array(label_values[:-1])))
+            for j, lv in enumerate(label_values[:-1]):
+                I = np.where(labels == lv)[0]
+                best = I[int(np.argmax(np.asarray(T)[I]))]
+                if C_.shape != (3, len(label_values) - 1) or C_[:, j].tolist() != XYZ[:, best].tolist():
+                    fail = (f"peak_XYZ: label {lv} -> {C_[:, j].tolist() if C_.ndim == 2 else C_!r}, the first voxel of maximal "
+                            f"statistic in it is {XYZ[:, best].tolist()} (T={Tl}, labels={labels.tolist()})")
+                    break
+        mut = mut or snap2.changed()
+        return {"lines": lines, "impl": impl, "oracle": fail, "nontrivial": p >= 2 or nd >= 2,
+                "tags": ["fisher", "fisher-" + c["dtype"], "fisher-" + c["labels"], "fisher-" + c["layout"]], "mutated": mut}
 
     # ------------------------------------------------------------------
     def run_case(self, case):
         warnings.filterwarnings("ignore")
         del REUSE_MISMATCH[:]
         r = getattr(self, "_" + case["kind"])(case)
+        # the terms regenerated from the source text (Gen/C17Source.lean) are run on the same inputs as the
+        # hand-written model and compared with the same observation of the implementation
+        lines, impl = r.get("lines"), r.get("impl")
+        if lines is not None and impl is not None and len(lines) == len(impl):
+            for k in range(len(lines)):
+                head = lines[k].split(" ", 1)[0]
+                if head in SRC_MIRROR or lines[k].startswith(("os sign ", "os mean ", "ts wilcoxon ")):
+                    lines.append("src" + lines[k])
+                    impl.append(impl[k])
         if REUSE_MISMATCH:
             if r.get("oracle") is None:
                 r["oracle"] = "statistic depends on what the object evaluated before: " + REUSE_MISMATCH[0]
@@ -1939,6 +2064,9 @@ class C17(PropertyCheck):
                 fail = f"pvalue({ext.tolist()}) = {pe.tolist()} not in (0, 1]"
             # z-scores: decreasing function of the p-value
             z = np.atleast_1d(P.zscore(ext))
+            for k in range(3):
+                lines.append(f"srczclip {fr(float(pe[k]))}")
+                impl.append(("zclip", float(z[k])))
             if fail is None and not (np.all(np.isfinite(z)) and z[0] <= z[2] <= z[1]):
                 fail = f"zscore({ext.tolist()}) = {z.tolist()} is not monotone in the statistic"
             # height threshold: P(null draw >= threshold) <= pval, at dyadic levels (ceil exact)
@@ -2054,6 +2182,32 @@ class C17(PropertyCheck):
             if any(not math.isfinite(v) for v in vals):
                 return None
             return cmp_rats(vals, model_out, 1e-8, 1e-9)
+        if kind == "fisher":      # -sum(log(pseudo p)) over the voxels of each cluster / region; log is finished here
+            if model_out.startswith(("error", "bad-op")):
+                return f"model says {model_out}"
+            _, labels, label_values, fisher, rf = impl_obs
+            pc, pr = [[float(F(t)) for t in part.split()] for part in model_out.split(";")]
+            labels = np.array(labels)
+            if len(pc) != len(labels) or len(pr) != len(labels):
+                return f"model answered {len(pc)} pseudo p-values for {len(labels)} voxels"
+            nclust = int(labels.max()) + 1 if len(labels) else 0
+            wantc = [0.0] if nclust == 0 else [-sum(math.log(pc[j]) for j in np.where(labels == i)[0]) for i in range(nclust)]
+            wantr = [-sum(math.log(pr[j]) for j in np.where(labels == lv)[0]) for lv in label_values]
+            for name, got, want in (("cluster", fisher, wantc), ("region", rf, wantr)):
+                if got is None:
+                    continue
+                if len(got) != len(want):
+                    return f"{name} Fisher values: impl has {len(got)}, model {len(want)}"
+                for i, (a, b) in enumerate(zip(got, want)):
+                    if not close(a, b, 1e-9, 1e-12):
+                        return f"{name} {i}: Fisher impl={a!r} model={b!r}"
+            return None
+        if kind == "zclip":       # zscore = norm.isf(clip(p)): the clip is the regenerated term, isf is finished here
+            if model_out.startswith(("error", "bad-op")):
+                return f"model says {model_out}"
+            import scipy.stats
+            want = float(scipy.stats.norm.isf(float(F(model_out.strip()))))
+            return None if close(impl_obs[1], want, 1e-9, 1e-9) else f"zscore impl={impl_obs[1]!r} model={want!r}"
         if kind == "pv":
             if model_out.startswith(("error", "bad-op")):
                 return f"model says {model_out}"
@@ -2183,6 +2337,11 @@ class C17(PropertyCheck):
         if k == "ptopt":
             for key, small in (("clusters", False), ("graph", False), ("nperms", None), ("p", 2), ("ndraws", 8), ("shift", 0.0)):
                 if case.get(key) != small and (not isinstance(small, int) or isinstance(small, bool) or case[key] > small):
+                    c = dict(case); c[key] = small
+                    yield c
+        if k == "fisher":
+            for key, small in (("p", 1), ("ndraws", 1), ("dtype", "f8"), ("layout", "C"), ("labels", "one")):
+                if case[key] != small:
                     c = dict(case); c[key] = small
                     yield c
         if k == "ptest":
